@@ -22,7 +22,7 @@ var commonAssume = []string{
 }
 
 func allChecks() []*CheckDef {
-	return []*CheckDef{checkC02(), checkC03(), checkC12(), checkC13(), checkC14(), checkC09(), checkC11(), checkC20(), checkC17(), checkC16(), checkC01()}
+	return []*CheckDef{checkC02(), checkC03(), checkC12(), checkC13(), checkC14(), checkC09(), checkC11(), checkC20(), checkC17(), checkC16(), checkC01(), checkC04(), checkC05()}
 }
 
 func checkC03() *CheckDef {
@@ -145,6 +145,44 @@ func allocLimit(params map[string]int) (uint64, uint64) {
 }
 
 func checkC13() *CheckDef {
+	c := checkC13base()
+	c.Prepare = genPrepare(1, 1)
+	base := c.Harnesses
+	c.Harnesses = func(tier string) []*sym.HarnessConfig {
+		out := base(tier)
+		ng := 5
+		if tier == "thorough" {
+			ng = 8
+		}
+		for api := 0; api <= 2; api++ {
+			for n := 0; n <= ng; n++ {
+				for _, h := range genHarnesses(c, "gH13a", map[string]int{"n": n, "api": api, "depth": 2}, 300000+30000*n) {
+					h.BudgetIsViolation = true
+					h.AllocLimit = allocLimit
+					out = append(out, h)
+				}
+			}
+			for flip := 0; flip <= 1; flip++ {
+				for _, h := range genHarnesses(c, "gH13b", map[string]int{"api": api, "depth": 2, "simple": 1, "typeflip": flip}, 3000000) {
+					h.BudgetIsViolation = true
+					h.AllocLimit = allocLimit
+					out = append(out, h)
+				}
+			}
+		}
+		return out
+	}
+	baseB := c.Bounds
+	c.Bounds = func(tier string) map[string]interface{} {
+		m := baseB(tier)
+		m["generated_deserializers"] = "FromWire(Decode(b)) and Decode(stream) (seekable / non-seekable) of every corpus type on arbitrary bytes (<= 5, thorough 8) and on reference encodings of valid values (concrete leaves) in which each length/count field in turn is an arbitrary int32, optionally with arbitrary element-type bytes in front of it"
+		return genBounds(c, m)
+	}
+	c.Assume = genAssume()
+	return c
+}
+
+func checkC13base() *CheckDef {
 	type bnd struct{ n, depth, budget, k, bin int }
 	bounds := func(tier string) bnd {
 		if tier == "thorough" {
@@ -184,7 +222,7 @@ func checkC13() *CheckDef {
 				"alloc_bound":                 "each request <= 1MiB+4KiB+128*N bytes, path total <= 2x that",
 				"work_bound":                  "calls into the underlying reader <= 64+32*N; interpreter steps <= 300000+30000*N",
 				"frame_reader":                "frame.Reader.Read on arbitrary bytes; fixed constant 10MiB+4KiB (its documented fast-path size)",
-				"outside":                     "constant factors; GC; generated-code deserializers (generated-code pipeline not built yet)",
+				"outside":                     "constant factors; GC; programs outside the corpus",
 			}
 		},
 		Assume: commonAssume,
@@ -196,6 +234,31 @@ const wirePkg = "go.uber.org/thriftrw/wire"
 var pkgWire = PkgDef{Path: wirePkg, Dir: "wire", Name: "wire", Files: []string{"wire/zz_h14.go"}}
 
 func checkC14() *CheckDef {
+	c := checkC14base()
+	c.Prepare = genPrepare(1, 1)
+	base := c.Harnesses
+	c.Harnesses = func(tier string) []*sym.HarnessConfig {
+		out := base(tier)
+		for _, h := range genHarnesses(c, "gH14g", map[string]int{"depth": 2, "simple": 1}, 20000000) {
+			out = append(out, h)
+		}
+		for _, h := range genHarnesses(c, "gH14t", map[string]int{"depth": 1, "simple": 1}, 20000000) {
+			out = append(out, h)
+		}
+		return out
+	}
+	baseB := c.Bounds
+	c.Bounds = func(tier string) map[string]interface{} {
+		m := baseB(tier)
+		m["generated_equals"] = "every corpus type: x, y (and z) obtained by decoding reference encodings of independent valid values (containers <= 1 element, nested values all-absent or all-present); Equals vs structural oracle vs wire.ValuesAreEqual; nil receivers/arguments"
+		m["outside"] = "NaN and duplicates (excluded by the statement); larger containers; programs outside the corpus"
+		return genBounds(c, m)
+	}
+	c.Assume = genAssume()
+	return c
+}
+
+func checkC14base() *CheckDef {
 	params := func(tier string) map[string]int {
 		if tier == "thorough" {
 			return map[string]int{"depth": 2, "budget": 4, "budget2": 3, "k": 2, "bin": 2}
@@ -441,7 +504,7 @@ func genPrepare(k, l int) func(c *CheckDef, tier string) (map[string][]byte, []s
 			return nil, nil, nil, err
 		}
 		c.Gen = info
-		c.Pkgs = []PkgDef{{Path: info.MainPkg, Dir: info.MainDir, Name: "zzmain", Raw: true}}
+		c.Pkgs = append(c.Pkgs, PkgDef{Path: info.MainPkg, Dir: info.MainDir, Name: "zzmain", Raw: true})
 		return info.Overlay, info.Patterns, cleanup, nil
 	}
 }
@@ -456,7 +519,7 @@ func genHarnesses(c *CheckDef, name string, extra map[string]int, budget int) []
 		for k, v := range extra {
 			p[k] = v
 		}
-		out = append(out, &sym.HarnessConfig{Name: name, Pkg: c.Gen.MainPkg, Params: p, Budget: budget, BigLim: 40})
+		out = append(out, &sym.HarnessConfig{Name: name, Pkg: c.Gen.MainPkg, Params: p, Budget: budget, BigLim: 200})
 	}
 	return out
 }
@@ -484,6 +547,72 @@ func checkC01() *CheckDef {
 	c.Bounds = func(tier string) map[string]interface{} {
 		return genBounds(c, map[string]interface{}{"containers_max": 1, "strings_max": 1, "struct_nesting": 2,
 			"outside": "programs outside the corpus; generator option sets other than --no-zap --no-embed-idl; String(); constants and accessors"})
+	}
+	return c
+}
+
+func genAssume() []string {
+	return append(append([]string{}, commonAssume...),
+		"T4 the independent reference codec and the structural equality are harness code (harness/genlib) written from the Thrift spec",
+		"T5 schema facts come from /repo's own compile package; generated struct fields are assumed to appear in schema order")
+}
+
+func checkC04() *CheckDef {
+	c := &CheckDef{ID: "C04", Assume: genAssume()}
+	c.Prepare = genPrepare(1, 1)
+	type bnd struct{ n, muts int }
+	bounds := func(tier string) bnd {
+		if tier == "thorough" {
+			return bnd{n: 8, muts: 2}
+		}
+		return bnd{n: 5, muts: 1}
+	}
+	c.Harnesses = func(tier string) []*sym.HarnessConfig {
+		b := bounds(tier)
+		var out []*sym.HarnessConfig
+		for n := 0; n <= b.n; n++ {
+			out = append(out, genHarnesses(c, "gH04a", map[string]int{"n": n, "depth": 2}, 20000000)...)
+		}
+		simple := 1
+		if tier == "thorough" {
+			simple = 0
+		}
+		out = append(out, genHarnesses(c, "gH04b", map[string]int{"depth": 2, "muts": b.muts, "simple": simple}, 20000000)...)
+		out = append(out, genHarnesses(c, "gH04v", map[string]int{"depth": 2}, 20000000)...)
+		out = append(out, &sym.HarnessConfig{Name: "gHWitness", Pkg: c.Gen.MainPkg, Params: map[string]int{"type": 0, "depth": 1}, Budget: 20000000, ExpectViolation: true})
+		return out
+	}
+	c.Bounds = func(tier string) map[string]interface{} {
+		b := bounds(tier)
+		return genBounds(c, map[string]interface{}{"arbitrary_bytes_max": b.n, "mutations_of_reference_encodings": fmt.Sprintf("truncation at every offset or %d arbitrary byte substitution(s)", b.muts),
+			"readers": "random access; streaming over seekable and one-shot non-seekable sources (segmentation independence of the stream reader is C03's result)",
+			"value_shapes": "containers <= 1 element, strings <= 1 byte, nesting 2, presence patterns as in C01",
+			"outside":      "programs outside the corpus"})
+	}
+	return c
+}
+
+func checkC05() *CheckDef {
+	c := &CheckDef{ID: "C05", Assume: genAssume()}
+	c.Prepare = genPrepare(1, 1)
+	c.Harnesses = func(tier string) []*sym.HarnessConfig {
+		var out []*sym.HarnessConfig
+		for step := 0; step <= 3; step++ {
+			simple := 0
+			if step <= 1 && tier != "thorough" {
+				simple = 1 // base values: every nilable field absent, or every one present
+			}
+			out = append(out, genHarnesses(c, "gH05", map[string]int{"depth": 2, "step": step, "simple": simple}, 20000000)...)
+		}
+		out = append(out, &sym.HarnessConfig{Name: "gHWitness", Pkg: c.Gen.MainPkg, Params: map[string]int{"type": 0, "depth": 1}, Budget: 20000000, ExpectViolation: true})
+		return out
+	}
+	c.Bounds = func(tier string) map[string]interface{} {
+		return genBounds(c, map[string]interface{}{
+			"evolution_steps": "one step on the top-level struct: unknown field (symbolic id, 14 well-formed shapes, every field boundary); declared field re-encoded with another wire type; declared field removed; fields reversed",
+			"value_shapes":    "as C01 (quick tier, steps with foreign values: base values with all nilable fields absent or all present)",
+			"outside":         "steps inside nested structs/containers; two or more steps; container element-type mismatch (the statement is silent on it)",
+		})
 	}
 	return c
 }
